@@ -556,6 +556,12 @@ class DataFrameSchemaBackend(PolarsSchemaBackend):
             for s in schema.columns.values()
             if hasattr(s, "default") and s.default is not None
         ]:
+            if (
+                not col_schema.regex
+                and col_schema.name not in get_lazyframe_column_names(check_obj)
+            ):
+                # nothing to fill in a column that is not in the dataframe
+                continue
             backend = col_schema.get_backend(check_obj)
             check_obj = backend.set_default(check_obj, col_schema)
 
